@@ -117,6 +117,43 @@ def strToInt1 (s : Bytes) : Option Int :=
   | none => none
   | some ds => some (wrap64 ((ds.zip (countdown s.length)).map (fun (d, p) => (d : Int) * 10 ^ p.toNat)).sum)
 
+/-! ### integer columns of files: the fixed-width digit matrix, and optional columns -/
+
+/-- `move_intervals_to_digit_array(data, starts, ends, fill_value='0')`: every field right-aligned
+in a matrix as wide as the widest field, filled with `'0'` on the left -/
+def digitMatrix (rows : List Bytes) : List Bytes :=
+  let W := (rows.map List.length).foldl max 0
+  rows.map (fun r => List.replicate (W - r.length) 48 ++ r)
+
+/-- non-ragged `str_to_int` on the 2-D digit matrix: digit-encode, `.dot(10**arange(W)[::-1])` -/
+def strToIntMatrix (rows : List Bytes) : Option (List Int) :=
+  match omap (fun r => omap digitVal r) (digitMatrix rows) with
+  | none => none
+  | some drows =>
+    some (drows.map (fun ds => wrap64 ((ds.zip (countdown ds.length)).map (fun (d, p) => (d : Int) * 10 ^ p.toNat)).sum))
+
+/-- `get_digit_array` + `str_to_int(*x)`: if any field starts with a sign the ragged path is taken
+(with the sign flags), otherwise the digit matrix -/
+def columnInts (rows : List Bytes) : Option (List Int) :=
+  if rows.any (fun r => isNegRow r || isPosRow r) then strToInt rows else strToIntMatrix rows
+
+/-- a field that `parse_with_missing` treats as absent: empty, or a lone `'.'` -/
+def isMissing (r : Bytes) : Bool := r.length == 0 || r == [46]
+
+/-- `values = full(n, missing); values[mask] = parsed` -/
+def fillMissing (missing : Int) : List Bytes → List Int → List Int
+  | [], _ => []
+  | r :: rs, vals =>
+    if isMissing r then missing :: fillMissing missing rs vals
+    else vals.headD 0 :: fillMissing missing rs vals.tail
+
+/-- `str_to_int_with_missing` -/
+def strToIntWithMissing (rows : List Bytes) (missing : Int) : Option (List Int) :=
+  let present := rows.filter (fun r => !isMissing r)
+  match (if present = [] then some [] else strToInt present) with
+  | none => none
+  | some vals => some (fillMissing missing rows vals)
+
 /-! ### `join`, `int_lists_to_strings`, `split` -/
 
 /-- `join(sequences, sep, keep_last=True)` -/
@@ -238,7 +275,9 @@ def specDigits (s : Bytes) : Option Nat :=
 /-- unsigned decimal mantissa `I[.F]` (not both empty): value `(I·10^|F| + F) / 10^|F|` -/
 def specMantissa (s : Bytes) : Option Dec :=
   match findByte 46 s with
-  | none => (specNat s).map (fun v => ⟨(v : Int), 0⟩)
+  | none => match specNat s with
+    | some v => some ⟨(v : Int), 0⟩
+    | none => none
   | some c =>
     let I := s.take c
     let F := s.drop (c + 1)
